@@ -3,7 +3,7 @@
 set -e
 cd "$(dirname "$(readlink -f "$0")")"
 export OCAMLRUNPARAM="${OCAMLRUNPARAM:-s=1M}"
-export PYTHONPATH="${VERIF_REPO:-/repo}:/verif" PYTHONHASHSEED=0 PIP_NO_INDEX=1
+export PYTHONPATH="${VERIF_REPO:-/repo}:$PWD" PYTHONHASHSEED=0 PIP_NO_INDEX=1
 python3 tools/translate.py --repo "${VERIF_REPO:-/repo}" --out coq/Gen || true
 /venv/bin/python -c "from harness import main; main.ensure_makefile()"
 cd coq && timeout 3000 make -k -j8 2>&1 | tail -5
